@@ -353,3 +353,9 @@ def pipe_order(threshold: int, o1: int, o2: int, o3: int, o4: int, o5: int, o6: 
 
 
 _flags.int_format_placeholder = True     # log f-strings with symbolic ints are not the subject here (see vf/flags.py)
+
+
+def e2_obligations(tier):
+    """wide-range verification conditions over the AST of the real source (vf/e2.py, vf/e2k.py)"""
+    from vf import e2k
+    return [e2k.queue_completed(), e2k.queue_check_iteration()]
